@@ -25,11 +25,14 @@ package meta
 //@   modifies @searchState
 
 //@ func (*Engine).getSearchState
-//@   props C13 C10 C07
+//@   props C13 C10 C11 C07
 //@   requires e != nil && e.statePool != nil
 //@   modifies @searchState
 //@   ensures result != nil
 //@   ensures (e.boundedBacktracker != nil && result.backtracker != nil) ==> result.backtracker.Longest == e.longest
+// every state handed out - fresh from the pool or parked in the local slot - runs in the engine's CURRENT mode (the
+// views of one Regex use different states; a stale flag makes them disagree after a late Longest())
+//@   ensures result.pikevm != nil ==> result.pikevm.internalState.Longest == e.longest
 // ASSUMED: the per-search PikeVM handed out simulates e's pattern in e's current mode
 //@   trust ensures result.pikevm != nil && (forall h []byte, at int :: pvFoundAt(result.pikevm, h, at) == refFound(e, e.longest, h, at))
 //@   trust ensures e.boundedBacktracker != nil ==> result.backtracker != nil
@@ -219,7 +222,7 @@ package meta
 //@ spec func alEnds(in []byte, info *AnchoredLiteralInfo) bool = len(in) >= len(info.Prefix) + len(info.Suffix) && (forall i :: 0 <= i && i < len(info.Prefix) ==> in[i] == info.Prefix[i]) && (forall i :: 0 <= i && i < len(info.Suffix) ==> in[len(in) - len(info.Suffix) + i] == info.Suffix[i])
 //@ spec func alK(in []byte, info *AnchoredLiteralInfo, k int) bool = alSplit(in, len(info.Prefix), len(info.Suffix), info.WildcardMin, info.CharClassMin, info.CharClassTable != nil, *info.CharClassTable, info.WildcardNotNL, k)
 //@ func MatchAnchoredLiteral
-//@   props C19
+//@   props C19 C01 C02
 //@   requires alInfoOK(info)
 //@   ensures result ==> alEnds(input, info) && (exists k :: 0 <= k && alK(input, info, k))
 //@   ensures forall k :: 0 <= k && alEnds(input, info) && alK(input, info, k) ==> result
@@ -298,7 +301,7 @@ package meta
 //@ spec func alEnds2(re *syntax.Regexp, info *AnchoredLiteralInfo) bool = re.Op == 18 && len(re.Sub) >= 4 && (re.Sub[0].Op == 9 || re.Sub[0].Op == 7) && (re.Sub[len(re.Sub)-1].Op == 10 || re.Sub[len(re.Sub)-1].Op == 8) && isLit(re.Sub[len(re.Sub)-2]) && litBytes(info.Suffix, re.Sub[len(re.Sub)-2])
 //@ spec func alAllShape(re *syntax.Regexp, info *AnchoredLiteralInfo) bool = forall w :: 1 <= w && w < len(re.Sub) - 2 && isWild(re.Sub[w]) ==> alShape(re, w, info)
 //@ func DetectAnchoredLiteral
-//@   props C19
+//@   props C19 C01 C02
 //@   requires re != nil
 //@   assume astOK(re)
 //@   ensures result != nil ==> fresh(result) && alInfoOK(result)
@@ -318,23 +321,23 @@ package meta
 // the engine entry points of the strategy: the whole input or nothing, only from offset 0
 //@ spec func alMatch(in []byte, info *AnchoredLiteralInfo) bool = alEnds(in, info) && (exists k :: 0 <= k && alK(in, info, k))
 //@ func (*Engine).isMatchAnchoredLiteral
-//@   props C19
+//@   props C19 C01
 //@   requires e != nil && alInfoOK(e.anchoredLiteralInfo)
 //@   ensures result <==> alMatch(haystack, e.anchoredLiteralInfo)
 //@ func (*Engine).findIndicesAnchoredLiteral
-//@   props C19
+//@   props C19 C02
 //@   requires e != nil && alInfoOK(e.anchoredLiteralInfo)
 //@   ensures result2 <==> alMatch(haystack, e.anchoredLiteralInfo)
 //@   ensures result2 ==> result0 == 0 && result1 == len(haystack)
 //@   ensures !result2 ==> result0 == -1 && result1 == -1
 //@ func (*Engine).findIndicesAnchoredLiteralAt
-//@   props C19
+//@   props C19 C02
 //@   requires e != nil && alInfoOK(e.anchoredLiteralInfo)
 //@   ensures result2 <==> (at <= 0 && alMatch(haystack, e.anchoredLiteralInfo))
 //@   ensures result2 ==> result0 == 0 && result1 == len(haystack)
 //@   ensures !result2 ==> result0 == -1 && result1 == -1
 //@ func (*Engine).findAnchoredLiteral
-//@   props C19
+//@   props C19 C02
 //@   requires e != nil && alInfoOK(e.anchoredLiteralInfo)
 //@   ensures result != nil <==> alMatch(haystack, e.anchoredLiteralInfo)
 //@   ensures result != nil ==> fresh(result) && result.start == 0 && result.end == len(haystack) && sameslice(result.haystack, haystack)
